@@ -83,6 +83,11 @@ class CallGraph:
             seen_nodes.add(key)
             self.total_sites += 1
             k = c.fn[0]
+            if k == "expanded":
+                if c.fn[1] in self.funcs:
+                    self._add(f.qual, c.fn[1], c, "expanded")  # a caller for callers_of(); never traversed: the body was analysed in place
+                    self.resolved_sites += 1
+                continue
             if k in ("func", "closure", "boundcls"):
                 q = c.fn[1]
                 if q in self.funcs or q in self.prog.lambdas:
@@ -165,6 +170,8 @@ class CallGraph:
             if q in self.unsupported:
                 raise UnprovenScope(q, *self.unsupported[q])
             for e in self.edges.get(q, []):
+                if e.kind == "expanded":
+                    continue
                 if e.callee not in seen:
                     stack.append(e.callee)
         return seen
